@@ -84,6 +84,7 @@ type interpreter struct {
 	curExtFn *ssa.Function
 	lastFrame *frame
 	skipExt bool // next callSSA runs the body even if an intrinsic is registered
+	raceOff int  // >0 while a package is initialised lazily: no race accesses are recorded
 }
 
 type deferred struct {
@@ -244,7 +245,11 @@ func (i *interpreter) lazyInit(pkg *ssa.Package) {
 	i.initing[pkg] = true
 	saved := i.logging
 	i.logging = false
+	// package initialisation happens before everything else in a real program:
+	// its stores are not accesses of the task that happens to trigger it lazily
+	i.raceOff++
 	defer func() {
+		i.raceOff--
 		i.logging = saved
 		delete(i.initing, pkg)
 		i.inited[pkg] = true
